@@ -1,0 +1,32 @@
+//go:build verif
+
+package auth
+
+// Contracts checked by /verif/govc (contract-based deductive verification).
+// Comment-only: with the `verif` tag off this file is not even parsed.
+
+//@ pure signBytesOf(chain Str, tx x/auth/types.StdTx) Bytes
+//@ func GetSignBytes
+//@   trusted canonical JSON sign bytes (encoding/json): a function of the chain id and the transaction's entropy, fee, message and memo
+//@   pure_fn
+//@   ensures result1 == nil ==> bytes(result0) == signBytesOf(chainID, stdTx)
+
+//@ func ValidateSignatureDepth
+//@   trusted recursive count of member keys against the limit
+//@   pure_fn
+
+//@ func (Keeper).GetAccount
+//@   trusted account lookup
+//@   pure_fn
+//@ func (Keeper).GetParams
+//@   trusted parameter getter
+//@   pure_fn
+
+// What a successful authentication implies (C14 signature part, C15 fee part, C16 duplicate part).
+//@ func ValidateTransaction
+//@   props C15,C14,C16
+//@   modifies all
+//@   ensures [not-duplicate] sdkErr == nil ==> txIndexer != nil && !idxHas(txIndexer, txHashOf(old(bytes(txBz))))
+//@   ensures [signed] sdkErr == nil && !simulate ==> signer != nil && sigVerify(iface(signer), signBytesOf(ctxChainID(ctx), stdTx), bytes(stdTx.Signature.Signature))
+//@   ensures [fee-checked] sdkErr == nil ==> feeChkN != old(feeChkN) && feeChkOK && feeChkHave == stdTx.Fee
+//@   loop 0 invariant 0 - 1 <= rangeindex && rangeindex < len(validSigners)
